@@ -103,6 +103,11 @@ func runKeepAliveExecution(t *testing.T, seed int64, log *traceLog) {
 		horizon := 7800 // 2 h 10 min
 		closeAt := horizon/3 + rng.Intn(horizon*2/3)
 		staleClose := rng.Intn(4) == 0
+		// one execution in three: an early Close, then the same client allocates again on the same socket
+		reopen := !staleClose && rng.Intn(3) == 0
+		if reopen {
+			closeAt = 30 + rng.Intn(1500)
+		}
 		written := map[string]bool{}
 		peerKeys := []string{"A/1", "A/2", "B/1", "B/2"}
 		pn := 0
@@ -148,6 +153,33 @@ func runKeepAliveExecution(t *testing.T, seed int64, log *traceLog) {
 		closed := false
 		for sec() < horizon && !closed {
 			flushEvents()
+			if reopen && sec() >= closeAt {
+				reopen = false
+				emu.Lock()
+				age := time.Since(nonceAt)
+				emu.Unlock()
+				log.add(map[string]any{"e": "Close", "t": sec(), "nonce_age_s": int(age / time.Second)})
+				_ = relay.Close()
+				synctest.Wait()
+				afterClose(int(age / time.Second))
+				if w.Srv.AllocationCount() != 0 {
+					closed = true
+
+					break
+				}
+				time.Sleep(time.Duration(rng.Intn(200)) * time.Second)
+				relay, err = cl.Allocate()
+				if err != nil {
+					t.Fatalf("second allocate: %v", err)
+				}
+				relayAddr, _ = relay.LocalAddr().(*net.UDPAddr)
+				written = map[string]bool{}
+				closeAt = horizon/3 + rng.Intn(horizon*2/3)
+				flushEvents()
+				log.add(map[string]any{"e": "Reopen", "t": sec()})
+
+				continue
+			}
 			if sec() >= phaseEnd {
 				chatty = !chatty || sec() == 0
 				if chatty {
